@@ -165,6 +165,11 @@ def gen_cfg(seed: int, faulty: typing.Optional[bool] = None) -> dict:
                 req['hangup'] = True  # the client disconnects before the body is complete
             if web.random() < 0.25:
                 req['loose'] = web.choice(['no-accept', 'no-accept', 'wildcard', 'quality', 'charset', 'case', 'csv', 'csv'])
+    # a value outside the range of its declared kind (JSON 1e999 parses as infinity): a malformed payload like any other
+    for req in requests:
+        if faulty and not req['fail'] and req.get('cancel') is None and not req.get('hangup') and 'prid' not in req \
+                and web.random() < float(os.environ.get('C16_OVERFLOW', 0.03)):
+            req['fail'] = 'overflow'
     # applications deployed while serving: the inventory grows under the wrapper's descriptor discovery
     if not burst and not storm and web.random() < 0.25:
         for app in apps:
@@ -209,6 +214,9 @@ def make_selector(app: dict) -> application.Selector:
 
 def make_request(req: dict) -> layout.Request:
     fail = req['fail']
+    if fail == 'overflow':
+        body, _ = make_http(req)
+        return layout.Request(body, layout.Encoding.parse('application/json')[0], accept=layout.Encoding.parse('application/json'))
     return serving.make_request(
         req.get('prid', req['rid']), req['nrows'], req['vals'],
         accept='application/x-nonexistent' if fail == 'bad-accept' else 'application/json',
@@ -226,6 +234,8 @@ def make_http(req: dict) -> tuple[bytes, list]:
     body = serving.make_body(req.get('prid', req['rid']), req['nrows'], req['vals'],
                              drop_column='val' if fail == 'missing-column' else None, garbage=fail == 'garbage',
                              swapped=req.get('swapped', False))
+    if fail == 'overflow':
+        body = body.replace(f'"val": {req["vals"][0]}'.encode(), b'"val": 1e999', 1)
     content = 'application/x-nonexistent' if fail == 'bad-content' else 'application/json'
     accept = 'application/x-nonexistent' if fail == 'bad-accept' else 'application/json'
     loose = req.get('loose')
@@ -422,6 +432,7 @@ EXPECTED_EXC = {  # failing request kind -> acceptable platform error classes
     'missing-column': {'MissingError', 'InvalidError', 'FailedError'},
     'garbage': {'FailedError'},
     'poison': {'InvalidError'},
+    'overflow': {'InvalidError', 'FailedError', 'CastError'},
 }
 
 
@@ -474,6 +485,8 @@ def judge(cfg: dict, result: dict) -> list[dict]:
             result.setdefault('early', 0)
             result['early'] += 1
             continue  # asked for before the application was deployed: "not found" is the right answer then
+        if req['fail'] == 'overflow' and rec['status'] == 'ok':
+            continue  # whether a value out of range is refused or answered somehow is C15's business - here: it is alone
         if req['fail']:
             if rec['status'] != 'exc':
                 out.append({'class': 'missing-failure', 'rid': req['rid'],
